@@ -568,6 +568,6 @@ def run_unit(unit, tier, seed, known):
 
 
 def replay(name, inp):
-    if inp and ('report' in inp or inp.get('figures') or inp.get('two_reports_one_formatter')):
+    if inp and ('report' in inp or inp.get('figures') or inp.get('two_reports_one_formatter') or inp.get('namesake_results')):
         return rnat.replay(inp)
     return _replay_native(name or '', inp)
